@@ -182,6 +182,11 @@ def thunks_table():
         'va-athlete': lambda: u.valid_against_schema('sample-jsons/athlete.json', 'json/athlete.json'),
         'va-athlete-bad': lambda: u.valid_against_schema('sample-jsons/athlete_invalid.json', 'json/athlete.json'),
         'va-perf': lambda: u.valid_against_schema('sample-jsons/performance.json', 'json/performance.json'),
+        # schemas with internal / cross-file references (whatever a resolver keeps must be the caller's own)
+        'va-race': lambda: u.valid_against_schema('sample-jsons/race_iffleymiles_2016_600mA.json', 'json/race.json'),
+        'va-event': lambda: u.valid_against_schema('sample-jsons/event.json', 'json/event.json'),
+        'va-competition': lambda: u.valid_against_schema('sample-jsons/competition.json', 'json/competition.json'),
+        'sv-race-7': lambda: u.schema_valid('json/race.json', validator=jsonschema.Draft7Validator),
     }
 
 
@@ -237,6 +242,12 @@ SCENARIOS = [
     ('sv-hit-newest', ['sv-race-3', 'sv-athlete-4'], -19),
     ('va-hit-newest', ['va-athlete', 'va-perf'], -19),
     ('va-bad-hit-newest', ['va-athlete-bad', 'va-perf'], -19),
+    # ... and a HIT on the oldest entry
+    ('sv-hit-oldest', ['sv-race-3', 'sv-athlete-4'], 'oldest'),
+    ('va-hit-oldest', ['va-athlete', 'va-perf'], 'oldest'),
+    # documents validated against schemas with references, uncached, side by side
+    ('va-race-athlete', ['va-race', 'va-athlete'], 0),
+    ('va-race-event', ['va-race', 'va-event'], 0),
     # the other scoring systems and helpers the library offers (no shared state today: any they acquire shows here)
     ('tyrving-hand-auto', ['tyr-M15-100-hand', 'tyr-M15-100-auto'], 0),
     ('tyrving-diff', ['tyr-F12-HJ', 'tyr-F14-800'], 0),
@@ -280,8 +291,18 @@ class Scenario(object):
             u = mod('utils')
             if self.fill:       # warm tables, but the caches at their limit without the scenario's own keys
                 _clear_caches()
-        if self.fill and self.fill > 0:
+        if self.fill and self.fill != 'oldest' and self.fill > 0:
             fill_caches(self.fill)
+        elif self.fill == 'oldest':
+            # the FIRST caller's own answer is the OLDEST entry of a cache at its limit (a hit on it), the other caller's is
+            # not cached (a miss whose insertion evicts - whichever end a cache evicts from is covered by this and the next)
+            _clear_caches()
+            try:
+                with _stdout_guard():
+                    self.thunks[0]()
+            except Exception:
+                pass
+            fill_caches(19)
         elif self.fill and self.fill < 0:
             # the FIRST caller's own answer is cached as the newest entry of a cache at its limit (a hit), the other
             # caller's is not (a miss whose insertion evicts the newest entries)
@@ -582,7 +603,7 @@ def gen_shard(ctx, payload):
         for a, b in pairs:
             if HUNG:
                 break
-            fill = rng.choice([0, 19, 20]) if a.startswith(('sv', 'va')) else 0
+            fill = rng.choice([0, 0, 19, 20, 'oldest', -19]) if a.startswith(('sv', 'va')) else 0
             explore(ctx, rng, [a, b], [], fill, per, 400 if thorough else 40)
             ctx.label('pair-matrix-scenarios')
         for j in range(count):
